@@ -238,6 +238,47 @@ def run(repo: Repo, rep: Report, tier: str) -> None:
     rep.rule("artim-configured", "the ARTIM timer whose expiry raises Evt18 carries the configured ACSE timeout (C08's timeout-propagation)")
     check_timeout_propagation(repo, rep, "artim-configured")
     check_timer_run_state(repo, rep, "artim-run-state")
+    check_connect_failure(repo, rep, "connect-failure")
+    from ..delegate import delegate
+    rep.rule("invalid-pdu", "bytes that are not a well-formed PDU fail the decode (Evt19), they are not skipped (C01's evaluation of the item generators)")
+    delegate(repo, rep, tier, "C01", ("decoder-complete",), "invalid-pdu", "a malformed A-ASSOCIATE-RQ / -AC is decoded as if it were well-formed: the machine takes Evt6 / Evt3 (the association is accepted / established) where PS3.8 prescribes Evt19 -> AA-1 / AA-8 (A-ABORT)")
+
+
+def check_connect_failure(repo: Repo, rep: Report, rule: str) -> None:
+    """AE-1 issues the transport connect; the outcome comes back as Evt2 (confirmation) or Evt17 (closed) and
+    Table 9-10 has exactly those two rows for Sta4. Every way socket.connect() / wrap_socket() can fail is an
+    OSError (ENETUNREACH, EHOSTUNREACH, EADDRNOTAVAIL, EACCES are plain OSErrors, not ConnectionError /
+    TimeoutError): the try around them must catch OSError itself (or wider) and report Evt17 - a narrower list
+    lets the rest escape the action, no transition happens, the provider thread dies in Sta4 and neither the
+    A-P-ABORT indication nor the connection-close notification follows."""
+    rep.rule(rule, "AssociationSocket.connect() turns every OSError of connect / wrap_socket into Evt17")
+    tr = repo.mod("transport")
+    fn = repo.func("transport", "AssociationSocket.connect")
+    fq = "transport.AssociationSocket.connect"
+    calls = [c for c in walk_no_nested(fn) if isinstance(c, ast.Call) and isinstance(c.func, ast.Attribute) and c.func.attr in ("connect", "wrap_socket", "connect_ex", "do_handshake") and ("socket" in norm(c.func.value) or c.func.attr == "wrap_socket")]
+    rep.need(len(calls) >= 1, f"{fq}: the socket connect call was not found")
+    consts = {}
+    for a in tr.tree.body:
+        if isinstance(a, ast.Assign) and isinstance(a.targets[0], ast.Name) and isinstance(a.value, (ast.Tuple, ast.BinOp)):
+            consts[a.targets[0].id] = a.value
+    for c in calls:
+        t = enclosing(c, (ast.Try,))
+        ok, names = False, []
+        while t is not None and not ok:
+            if any(c is x for s_ in t.body for x in ast.walk(s_)):
+                for h in t.handlers:
+                    ty = h.type
+                    if isinstance(ty, ast.Name) and ty.id in consts:
+                        ty = consts[ty.id]
+                    hn = [] if ty is None else [norm(x) for x in ast.walk(ty) if isinstance(x, (ast.Name, ast.Attribute)) and norm(x)[:1].isupper() or norm(x).startswith(("ssl.", "socket."))]
+                    names += hn or ([norm(h.type)] if h.type is not None else [])
+                    wide = ty is None or any(x in ("OSError", "Exception", "BaseException", "EnvironmentError", "IOError", "socket.error") for x in hn)
+                    evt17 = any("'Evt17'" in norm(s_) for s_ in ast.walk(h) if isinstance(s_, ast.stmt))
+                    if wide and evt17:
+                        ok = True
+            t = enclosing(t, (ast.Try,))
+        rep.check(ok, rule, fq, enclosing(c, (ast.stmt,)) or c, f"`{norm(c)[:50]}` can fail with any OSError but the handlers around it cover only {sorted(set(names)) or 'nothing'}: an unreachable network / host or an unavailable local address (plain OSError) escapes AE-1 - the state machine gets neither Evt2 nor Evt17, the provider thread dies in Sta4 and AA-4 (A-P-ABORT indication, connection closed) never runs", mod=tr, node=c)
+    rep.floor("connect / wrap_socket calls in AssociationSocket.connect", len(calls), 1)
 
 
 def check_timer_run_state(repo: Repo, rep: Report, rule: str) -> None:
